@@ -19,6 +19,8 @@ declaration around the declarator (specifiers, initializers, several declarators
 namespace PycModel.C03
 open PycModel PycModel.Spec
 
+variable {ty : String → Bool}
+
 theorem denote_go (acc : Declarator) (ds : List Deriv) :
     denote (ofDerivs.go acc ds) = denote acc ++ ds := by
   induction ds generalizing acc with
@@ -68,8 +70,8 @@ state that sees its tokens followed by something that is no further suffix,
 `_parse_declarator_kind` returns the modifier chain `d.chain` around the `TypeDecl` carrying the
 name, and consumes exactly the tokens of `d`.  Nothing is assumed about the parser. -/
 theorem declarators_are_read_inside_out (d : D) (hwf : WFD d) (s : PState) (rest : List Tk)
-    (hs : SeesT s (d.flat ++ rest)) (hfo : FollowD rest) (F : Nat) (hF : d.fuel ≤ F) :
-    ∃ s', run F (.declaratorKind .id true) s = .ok (chainVal (d.chain s.idx) (d.td s.idx)) s' ∧ SeesT s' rest ∧
+    (hs : SeesT ty s (d.flat ++ rest)) (hfo : FollowD rest) (F : Nat) (hF : d.fuel ≤ F) :
+    ∃ s', run F (.declaratorKind .id true) s = .ok (chainVal (d.chain s.idx) (d.td s.idx)) s' ∧ SeesT ty s' rest ∧
       s'.idx = s.idx + d.ntoks :=
   parse_declarator d hwf s rest hs hfo F hF
 
@@ -146,7 +148,7 @@ example : ∃ s',
                 mk .FuncDecl (tc 4) [.none,
                   mk .PtrDecl (tc 0) [.list [.str "const"],
                     mk .TypeDecl (tc 4) [.str "a", .none, .none, .none]]]],
-              mk .Constant (tc 6) [.str "int", .str "3"], .list []]) s' ∧ SeesT s' [("SEMI", ";")] := by
+              mk .Constant (tc 6) [.str "int", .str "3"], .list []]) s' ∧ SeesT (fun _ => false) s' [("SEMI", ";")] := by
   let d : D := .ptr [[("CONST", "const")]] (.fn0 (.paren (.ptr [[]] (.arr (.name "a") (some (.const "INT_CONST_DEC" "3" "int"))))))
   have hwf : WFD d := by
     refine .ptr _ _ (by simp) (by decide) (.fn0 _ (.paren _ (.ptr _ _ (by simp) (by simp) (.arr _ _ (.name _) rfl ?_) rfl)) rfl) rfl
